@@ -26,6 +26,8 @@ the model runner prints `<compared>` only):
   SETX <user> <t|me> <k|-> <pub|priv|both|none> <tpls>
                                 {set desc} with extra.attachments on a group topic / on 'me', the k-th adapter call of the
                                 request failing            -> SETX code=<c> calls=<adapter calls: U|T,S,L, ! = made to fail>
+  NEWACCX <u> <k|-> <tpls>      {acc user="new"} with extra.attachments, the k-th adapter call of the request failing
+                                                           -> NEWACCX code=<c> calls=<adapter calls: Q,C,H,A,D,L>
   USER/NEWACC/TOPIC/PUB/TAV/UAV/DELMSG/DELTOPIC/DELUSER/GC/DUMP      history of the link / GC part
      (NEWACC = {acc user="new"} with attachments from a session that is not logged in; TOPIC = {sub topic="new"};
       TAV / UAV = {set desc} on a group topic / on "me"; DELUSER of an owner removes its topics and their messages)
@@ -56,7 +58,7 @@ LAWS = {
     "c16-attachment-link-all-or-nothing": "a stored message is left without links to its existing attachments because another listed attachment does not exist",
     "nothing-else-removed": "upload records and bytes disappear only through GC runs or failed uploads",
     "linked-never-removed": "an attachment listed with an accepted message - whoever sent it: write-only subscriber, owner, root on behalf of a user, a post to 'sys' - or the avatar listed with the last acknowledged topic / account update is not garbage-collected (record and bytes) after the grace period while the message / topic / user exists",
-    "refused-no-effect-links": "a {set desc} that is answered with an error (denied, or the store failed while the topic / account / subscription was being updated) leaves upload records, link rows and stored bytes as they were: the avatar that was linked stays linked",
+    "refused-no-effect-links": "a {set desc} or {acc user=new} that is answered with an error (denied, or the store failed while the topic / account / subscription was being updated or created) leaves upload records, link rows and stored bytes as they were: the avatar that was linked stays linked",
     "url-names-upload": "a URL yields an id only if its cleaned path is [serve prefix or nothing] + an 11-character name from [-_A-Za-z0-9] followed by nothing or a character outside that class",
     "no-panic": "the code under test panicked",
 }
@@ -761,6 +763,8 @@ def avatar_fault_cases_c16c(g, count, length):
         for tg, u in ((str(t), a), ("me", a), ("me", b)):
             script += [("ok", tg, u), ("fault1", tg, u), ("gc", tg, u), ("faultsub", tg, u), ("faultlink", tg, u), ("gc", tg, u)]
         script += [("nonowner", str(t), b), ("privonly", str(t), b), ("none", str(t), a), ("gc", str(t), a)]
+        script += [("newacc", k_, 0) for k_ in ("-", "1", "2", "3", "4", "5")] + [("gc", str(t), a)]
+        created = []
         if h % 2:
             rng.shuffle(script)
         steps = script + [None] * max(0, length - len(script))
@@ -770,14 +774,29 @@ def avatar_fault_cases_c16c(g, count, length):
                 tg, u = rng.choice([(str(t), a), ("me", a), ("me", b), (str(t), b)])
                 r = rng.random()
                 what = ("ok" if r < 0.25 else "fault1" if r < 0.45 else "faultsub" if r < 0.55 else "faultlink" if r < 0.62 else
-                        "faultany" if r < 0.72 else "gc" if r < 0.87 else "none" if r < 0.9 else "privonly")
-                if u == b and tg != "me":
+                        "faultany" if r < 0.72 else "gc" if r < 0.84 else "none" if r < 0.86 else "newacc" if r < 0.93 else "privonly")
+                if u == b and tg != "me" and what != "newacc":
                     what = rng.choice(["nonowner", "privonly", "nonowner"])
                 stp = (what, tg, u)
+                if what == "newacc":
+                    stp = (what, rng.choice(["-", "-", "1", "2", "3", "4", "5", "6"]), 0)
             what, tg, u = stp
             if what == "gc":
                 gc_and_download(tg)
                 old_new = []
+                continue
+            if what == "newacc":
+                # {acc user="new"} with an avatar: the account exists afterwards iff none of the four calls that
+                # can refuse the request was made to fail
+                g.nuser += 1
+                k = rng.choice(files)
+                old_new.append(k)
+                g.add("NEWACCX %d %s %s" % (g.nuser, tg, g.tpl(k) if rng.random() < 0.9 else "-"))
+                g.add("DUMP")
+                if tg == "-" or int(tg) >= 5:
+                    created.append(g.nuser)
+                    if tg == "-" or int(tg) > 5:
+                        cur["me%d" % g.nuser] = k
                 continue
             wire = tg
             tg = tg if tg != "me" else "me%d" % u
@@ -813,8 +832,8 @@ def avatar_fault_cases_c16c(g, count, length):
         g.add("GC past 0")
         g.add("DUMP")
         g.add("DELTOPIC %d %d" % (a, t))
-        g.add("DELUSER %d" % a)
-        g.add("DELUSER %d" % b)
+        for u_ in [a, b] + created:
+            g.add("DELUSER %d" % u_)
         g.add("DUMP")
         g.add("GC zero 0")
         g.add("DUMP")
@@ -1002,7 +1021,7 @@ def history_expectations(g, lines, answers):
                 if now_ != prev_dump:
                     pl = set(prev_dump[1].split(",")) - {"-"}
                     fails.append(("refused-no-effect-links", at,
-                                  "{set desc} answered %s changed the store: link rows lost %s, gained %s; records %s -> %s"
+                                  "{set desc} / {acc} answered %s changed the store: link rows lost %s, gained %s; records %s -> %s"
                                   % (code, sorted(pl - links), sorted(links - pl), prev_dump[0], d["files"])))
             refused_set = None
             prev_dump = (d["files"], d["links"], d["disk"])
@@ -1026,10 +1045,10 @@ def history_expectations(g, lines, answers):
             exist = {k for k, s in files.items()}
             done = {k for k, s in files.items() if s == "1"}
             continue
-        if w[0] not in ("PUB", "PUBX", "TAV", "UAV", "TOPIC", "NEWACC", "SETX", "DELMSG", "DELTOPIC", "DELUSER"):
+        if w[0] not in ("PUB", "PUBX", "TAV", "UAV", "TOPIC", "NEWACC", "NEWACCX", "SETX", "DELMSG", "DELTOPIC", "DELUSER"):
             continue
         named = []
-        tpls = w[-1] if w[0] in ("PUB", "PUBX", "TAV", "UAV", "TOPIC", "NEWACC", "SETX") else "-"
+        tpls = w[-1] if w[0] in ("PUB", "PUBX", "TAV", "UAV", "TOPIC", "NEWACC", "NEWACCX", "SETX") else "-"
         if tpls != "-":
             named = [g.names.get(t) for t in tpls.split(",")]
         if w[0] in ("PUB", "PUBX"):
@@ -1060,6 +1079,17 @@ def history_expectations(g, lines, answers):
                     hd["%s>%s" % (firstres, tgt)] = i
             elif w[0] in ("TAV", "UAV") and cmp_.split()[1].isdigit() and int(cmp_.split()[1]) >= 400:
                 refused_set = (i, cmp_.split()[1])
+        elif w[0] == "NEWACCX":
+            # NEWACCX <u> <k|-> <tpls> -> NEWACCX code=<c> calls=<..>
+            a = kvs(cmp_)
+            code, calls = a.get("code", "?"), a.get("calls", "-")
+            tgt = "u" + w[1]
+            firstres = next((k for k in named if k is not None), None)
+            if code != "201":
+                refused_set = (i, code)          # an account creation that failed leaves no trace in the file slice
+            elif code == "201" and "L!" not in calls.split(",") and firstres is not None and firstres in exist:
+                for hd in (held, owed):
+                    hd["%s>%s" % (firstres, tgt)] = i
         elif w[0] == "SETX":
             # SETX <user> <t|me> <k|-> <what> <tpls> -> SETX code=<c> calls=<..>
             a = kvs(cmp_)
@@ -1469,7 +1499,7 @@ def run(ctx):
         if g is not None:
             nm = {}
             for l in rp.get("lines", []):
-                if l.split(None, 1)[0] in ("PUB", "PUBX", "TAV", "UAV", "TOPIC", "NEWACC", "SETX") and l.split()[-1] != "-":
+                if l.split(None, 1)[0] in ("PUB", "PUBX", "TAV", "UAV", "TOPIC", "NEWACC", "NEWACCX", "SETX") and l.split()[-1] != "-":
                     for t in l.split()[-1].split(","):
                         nm[t] = g.names.get(t)
             rp["names"] = nm
@@ -1555,10 +1585,10 @@ def run(ctx):
         k = l.split()[0]
         kinds[k] = kinds.get(k, 0) + 1
         c = a.split(" |")[0].split()
-        o = k + ":" + (" ".join(c[1:3]) if k in ("UP", "SV", "SVX") else (" ".join(c[1:3]) if k == "SETX" else ""))
-        o = o if k in ("UP", "SV", "SVX", "SETX") else k + ":" + ( ("0" if c[1:] in (["0"], ["-"]) else "x") if k in ("ID", "FA") else "")
+        o = k + ":" + (" ".join(c[1:3]) if k in ("UP", "SV", "SVX") else (" ".join(c[1:3]) if k in ("SETX", "NEWACCX") else ""))
+        o = o if k in ("UP", "SV", "SVX", "SETX", "NEWACCX") else k + ":" + ( ("0" if c[1:] in (["0"], ["-"]) else "x") if k in ("ID", "FA") else "")
         outs[o] = outs.get(o, 0) + 1
-        if (k == "ID" and c[1] != "0") or (k in ("UP", "SV", "SVX") and c[2] != "none") or k in ("PUB", "PUBX", "MEMBER", "P2P", "TAV", "UAV", "NEWACC", "SETX", "GC", "DELMSG", "DELTOPIC", "DELUSER", "INFLIGHT") \
+        if (k == "ID" and c[1] != "0") or (k in ("UP", "SV", "SVX") and c[2] != "none") or k in ("PUB", "PUBX", "MEMBER", "P2P", "TAV", "UAV", "NEWACC", "NEWACCX", "SETX", "GC", "DELMSG", "DELTOPIC", "DELUSER", "INFLIGHT") \
                 or (k == "FA" and c[1] == "1") or (k == "CL" and c[1] != l.split()[1]):
             nontrivial.add(l)
     ctx.coverage.update({
